@@ -372,7 +372,7 @@ def regex_lang(pattern, flags=0, mode='match', groups=(), markers=None, alpha=No
     alpha = alpha or alphabet(kind)
     if alpha.kind != kind:
         raise AnalysisError('pattern/alphabet kind mismatch')
-    if kind == 'str':
+    if kind == 'str' and not flags & re.ASCII:
         flags |= re.UNICODE
     tree = parse(pattern, flags)
     flags = tree.state.flags
@@ -674,3 +674,155 @@ def lift(lang, markers):
     nA = lang.alpha.n
     trans = [row[:nA] + [q] * len(markers) for q, row in enumerate(lang.trans)]
     return Lang(trans, list(lang.acc), lang.alpha, markers)
+
+
+# ---- line-level operators on a language of whole texts ------------------------------------------
+
+def _coacc(lang):
+    rev = {}
+    for q, row in enumerate(lang.trans):
+        for t in set(row):
+            rev.setdefault(t, set()).add(q)
+    seen = {q for q, a in enumerate(lang.acc) if a}
+    st = list(seen)
+    while st:
+        x = st.pop()
+        for y in rev.get(x, ()):
+            if y not in seen:
+                seen.add(y)
+                st.append(y)
+    return seen
+
+
+def _reach(lang):
+    seen = {0}
+    st = [0]
+    while st:
+        x = st.pop()
+        for y in set(lang.trans[x]):
+            if y not in seen:
+                seen.add(y)
+                st.append(y)
+    return seen
+
+
+def lines_of(lang, which='rest', universal_newlines=False):
+    """language of the lines of the texts of `lang`.
+
+    which: 'first' | 'rest' (every line but the first) | 'all'.
+    universal_newlines False: lines end at '\\n' only (file iteration);
+    True: str.splitlines() restricted to the boundaries \\n, \\r, \\r\\n (the only ones inside the
+    analysed domains).  A final unterminated empty piece is not a line.  Markers pass through."""
+    alpha = lang.alpha
+    nl = alpha.idx['\n' if alpha.kind == 'str' else b'\n']
+    cr = alpha.idx['\r' if alpha.kind == 'str' else b'\r']
+    bnd = [nl, cr] if universal_newlines else [nl]
+    co = _coacc(lang)
+    live = _reach(lang) & co
+    starts = set()
+    if which in ('first', 'all'):
+        starts.add((0, False, True))
+    if which in ('rest', 'all'):
+        for p in live:
+            for b in bnd:
+                t = lang.trans[p][b]
+                if t in co:
+                    starts.add((t, universal_newlines and b == cr, True))
+    nA = alpha.n
+
+    def step(S, sym):
+        if sym in bnd:
+            return frozenset()
+        out = set()
+        for (q, f, e) in S:
+            t = lang.trans[q][sym]
+            if t in co:
+                out.add((t, f, e if sym >= nA else False))
+        return frozenset(out)
+
+    def accepting(S):
+        for (q, f, e) in S:
+            if lang.acc[q] and not e:
+                return True
+            for b in bnd:
+                if lang.trans[q][b] in co and not (e and f and b == nl):
+                    return True
+        return False
+    return from_function(alpha, lang.markers, frozenset(starts), step, accepting)
+
+
+def strip_lang(lang, chars):
+    """{ w.strip(chars) : w in lang }"""
+    alpha = lang.alpha
+    cs = [alpha.idx[c] for c in chars]
+    nA = alpha.n
+
+    def clo(states):
+        st = list(states)
+        seen = set(states)
+        while st:
+            q = st.pop()
+            for c in cs:
+                t = lang.trans[q][c]
+                if t not in seen:
+                    seen.add(t)
+                    st.append(t)
+        return seen
+    # states from which an accepting state is reachable through chars* only
+    fin = {q for q, a in enumerate(lang.acc) if a}
+    changed = True
+    while changed:
+        changed = False
+        for q in range(len(lang.trans)):
+            if q not in fin and any(lang.trans[q][c] in fin for c in cs):
+                fin.add(q)
+                changed = True
+    start = (frozenset(clo({0})), 'start')
+
+    def step(S, sym):
+        qs, ph = S
+        if ph == 'dead':
+            return S
+        if ph == 'start' and sym in cs:
+            return (frozenset(), 'dead')      # result must not start with a stripped char
+        nq = frozenset(lang.trans[q][sym] for q in qs)
+        if sym >= nA:
+            return (nq, ph)
+        return (nq, 'endc' if sym in cs else 'mid')
+
+    def accepting(S):
+        qs, ph = S
+        if ph in ('dead', 'endc'):
+            return False
+        return any(q in fin for q in qs)
+    return from_function(alpha, lang.markers, start, step, accepting)
+
+
+def bytes_pattern_as_str(pattern):
+    """A bytes regex viewed as a str regex (with re.ASCII) over UTF-8 decoded text.  Sound only when
+    every leaf that accepts a byte >= 0x80 accepts all of them and sits alone under an unbounded
+    repeat (so "one non-ASCII character" and "its UTF-8 bytes" are interchangeable)."""
+    if not isinstance(pattern, bytes):
+        return pattern
+    if any(b >= 0x80 for b in pattern):
+        raise AnalysisError('bytes regex with non-ASCII literal')
+    tree = parse(pattern, 0)
+    A = alphabet('bytes')
+    hi = sum(1 << i for i in range(128, 256))
+
+    def walk(seq, under_star):
+        for op, av in seq:
+            ops = str(op)
+            if ops in ('LITERAL', 'NOT_LITERAL', 'ANY', 'IN'):
+                m = A.leaf((op, av), tree.state.flags) & hi
+                if m and (m != hi or not (under_star and len(seq) == 1)):
+                    raise AnalysisError('bytes regex %r is not liftable to text (leaf on high bytes)' % pattern)
+            elif ops == 'SUBPATTERN':
+                walk(av[3], under_star and len(seq) == 1)
+            elif ops == 'BRANCH':
+                for a in av[1]:
+                    walk(a, False)
+            elif ops in ('MAX_REPEAT', 'MIN_REPEAT'):
+                walk(av[2], av[1] == MAXREPEAT)
+    walk(tree, False)
+    return pattern.decode('ascii')
